@@ -58,14 +58,74 @@ func astTypeName(p *packages.Package, e ast.Expr) string {
 // collectTemplates walks the non-test files of a package and returns every go/ast composite literal.
 func collectTemplates(p *packages.Package) []*tmplSite {
 	var sites []*tmplSite
+	byLit := map[*ast.CompositeLit][]*tmplSite{}
+	// pure builders: functions whose body is `return <expr>` - a template written once and instantiated per call. Their
+	// literal is read at every call site with the parameters replaced by the arguments.
+	builders := map[types.Object]*ast.FuncDecl{}
+	for _, f := range p.Syntax {
+		for _, d := range f.Decls {
+			fd, ok := d.(*ast.FuncDecl)
+			if !ok || fd.Body == nil || len(fd.Body.List) != 1 || fd.Recv != nil {
+				continue
+			}
+			rs, ok := fd.Body.List[0].(*ast.ReturnStmt)
+			if !ok || len(rs.Results) != 1 {
+				continue
+			}
+			if t := p.TypesInfo.TypeOf(rs.Results[0]); t == nil || !strings.Contains(t.String(), "go/ast.") {
+				continue
+			}
+			if obj := p.TypesInfo.Defs[fd.Name]; obj != nil {
+				builders[obj] = fd
+			}
+		}
+	}
+	type env map[types.Object][]ast.Expr // parameter -> argument expression(s) (several for a variadic parameter)
+	envFd := map[*ast.FuncDecl]*ast.FuncDecl{} // builder being instantiated -> the function its arguments were written in
+	var subst func(e ast.Expr, ev env) ast.Expr
+	subst = func(e ast.Expr, ev env) ast.Expr {
+		if len(ev) == 0 || e == nil {
+			return e
+		}
+		switch x := e.(type) {
+		case *ast.Ident:
+			if a, ok := ev[p.TypesInfo.Uses[x]]; ok && len(a) == 1 {
+				return a[0]
+			}
+		case *ast.ParenExpr:
+			return subst(x.X, ev)
+		case *ast.CallExpr:
+			changed := false
+			args := make([]ast.Expr, len(x.Args))
+			for i, a := range x.Args {
+				args[i] = subst(a, ev)
+				if args[i] != a {
+					changed = true
+				}
+			}
+			if changed {
+				return &ast.CallExpr{Fun: x.Fun, Lparen: x.Lparen, Args: args, Ellipsis: x.Ellipsis, Rparen: x.Rparen}
+			}
+		case *ast.UnaryExpr:
+			if y := subst(x.X, ev); y != x.X {
+				return &ast.UnaryExpr{OpPos: x.OpPos, Op: x.Op, X: y}
+			}
+		}
+		return e
+	}
 	for _, f := range p.Syntax {
 		for _, d := range f.Decls {
 			fd, ok := d.(*ast.FuncDecl)
 			if !ok || fd.Body == nil {
 				continue
 			}
-			var walk func(n ast.Node, parent *tmplSite, slot string, fl *ast.FuncLit)
-			walk = func(n ast.Node, parent *tmplSite, slot string, fl *ast.FuncLit) {
+			if obj := p.TypesInfo.Defs[fd.Name]; obj != nil && builders[obj] != nil {
+				// a builder's own literal is read where the builder is called; if nobody calls it with a template in
+				// hand, it is still read once on its own below (no environment)
+				_ = obj
+			}
+			var walk func(n ast.Node, parent *tmplSite, slot string, fl *ast.FuncLit, ev env, depth int)
+			walk = func(n ast.Node, parent *tmplSite, slot string, fl *ast.FuncLit, ev env, depth int) {
 				switch x := n.(type) {
 				case nil:
 					return
@@ -77,7 +137,7 @@ func collectTemplates(p *packages.Package) []*tmplSite {
 						}
 						switch y := m.(type) {
 						case *ast.CompositeLit, *ast.UnaryExpr, *ast.FuncLit:
-							walk(y, nil, "", x)
+							walk(y, nil, "", x, ev, depth)
 							return false
 						}
 						return true
@@ -85,8 +145,75 @@ func collectTemplates(p *packages.Package) []*tmplSite {
 					return
 				case *ast.UnaryExpr:
 					if x.Op == token.AND {
-						walk(x.X, parent, slot, fl)
+						walk(x.X, parent, slot, fl, ev, depth)
 						return
+					}
+				case *ast.Ident:
+					// a builder's parameter standing for the argument(s) of this call
+					if parent != nil {
+						if a, ok := ev[p.TypesInfo.Uses[x]]; ok {
+							saved := fd
+							if cf := envFd[fd]; cf != nil {
+								fd = cf // the arguments are expressions of the calling function
+							}
+							for _, e := range a {
+								walk(e, parent, slot, fl, nil, depth)
+							}
+							fd = saved
+							return
+						}
+						// a node built into a local first (`lit := &ast.FuncLit{...}`) and then put into its slot: the
+						// site created at the definition gets this parent
+						if def := singleAssignment(p, fd, x); def != nil {
+							if u, isU := ast.Unparen(def).(*ast.UnaryExpr); isU && u.Op == token.AND {
+								def = u.X
+							}
+							if cl, isCL := ast.Unparen(def).(*ast.CompositeLit); isCL {
+								for _, s0 := range byLit[cl] {
+									if s0.parent == nil && s0.fn == fd {
+										s0.parent, s0.slot = parent, slot
+									}
+								}
+							}
+						}
+					}
+					return
+				case *ast.CallExpr:
+					if parent != nil && depth < 3 {
+						if id := calleeIdent(x); id != nil {
+							if b := builders[p.TypesInfo.Uses[id]]; b != nil && b != fd {
+								ev2 := env{}
+								k := 0
+								if b.Type.Params != nil {
+									for _, fl2 := range b.Type.Params.List {
+										_, variadic := fl2.Type.(*ast.Ellipsis)
+										for _, nm := range fl2.Names {
+											obj := p.TypesInfo.Defs[nm]
+											switch {
+											case variadic:
+												var rest []ast.Expr
+												for ; k < len(x.Args); k++ {
+													rest = append(rest, subst(x.Args[k], ev))
+												}
+												ev2[obj] = rest
+											case k < len(x.Args):
+												ev2[obj] = []ast.Expr{subst(x.Args[k], ev)}
+												k++
+											}
+										}
+									}
+								}
+								res := b.Body.List[0].(*ast.ReturnStmt).Results[0]
+								// the builder's literal, instantiated here: its sites belong to the builder's declaration
+								// (for naming) but sit in this parent's slot
+								saved := fd
+								envFd[b] = fd
+								fd = b
+								walk(res, parent, slot, nil, ev2, depth+1)
+								fd = saved
+								return
+							}
+						}
 					}
 				case *ast.CompositeLit:
 					kind := astTypeName(p, x)
@@ -94,20 +221,21 @@ func collectTemplates(p *packages.Package) []*tmplSite {
 						// slice / array literal of nodes: elements sit in the same slot of the same parent
 						for _, e := range x.Elts {
 							if kv, ok := e.(*ast.KeyValueExpr); ok {
-								walk(kv.Value, parent, slot, fl)
+								walk(kv.Value, parent, slot, fl, ev, depth)
 							} else {
-								walk(e, parent, slot, fl)
+								walk(e, parent, slot, fl, ev, depth)
 							}
 						}
 						return
 					}
 					s := &tmplSite{lit: x, kind: kind, fields: map[string]ast.Expr{}, parent: parent, slot: slot, fn: fd, fnLit: fl, pkg: p}
 					sites = append(sites, s)
+					byLit[x] = append(byLit[x], s)
 					for _, e := range x.Elts {
 						if kv, ok := e.(*ast.KeyValueExpr); ok {
 							if id, ok := kv.Key.(*ast.Ident); ok {
-								s.fields[id.Name] = kv.Value
-								walk(kv.Value, s, id.Name, fl)
+								s.fields[id.Name] = subst(kv.Value, ev)
+								walk(kv.Value, s, id.Name, fl, ev, depth)
 							}
 						}
 					}
@@ -120,21 +248,63 @@ func collectTemplates(p *packages.Package) []*tmplSite {
 					}
 					switch y := m.(type) {
 					case *ast.CompositeLit, *ast.FuncLit:
-						walk(y, nil, "", fl)
+						walk(y, nil, "", fl, ev, depth)
 						return false
 					case *ast.UnaryExpr:
 						if y.Op == token.AND {
-							walk(y, nil, "", fl)
+							walk(y, nil, "", fl, ev, depth)
 							return false
 						}
 					}
 					return true
 				})
 			}
-			walk(fd.Body, nil, "", nil)
+			walk(fd.Body, nil, "", nil, nil, 0)
 		}
 	}
-	return sites
+	// a builder that was instantiated at its call sites is not also a template of its own (its parameters are not names)
+	instantiated := map[*ast.CompositeLit]bool{}
+	for _, s := range sites {
+		if s.parent != nil {
+			instantiated[s.lit] = true
+		}
+	}
+	var out []*tmplSite
+	for _, s := range sites {
+		if s.parent == nil && instantiated[s.lit] && builders[p.TypesInfo.Defs[s.fn.Name]] != nil {
+			// the uninstantiated reading of a builder's top literal: dropped together with what hangs below it
+			continue
+		}
+		out = append(out, s)
+	}
+	// drop descendants of dropped roots
+	keep := map[*tmplSite]bool{}
+	for _, s := range out {
+		keep[s] = true
+	}
+	var final []*tmplSite
+	for _, s := range out {
+		ok := true
+		for a := s.parent; a != nil; a = a.parent {
+			if !keep[a] {
+				ok = false
+			}
+		}
+		if ok {
+			final = append(final, s)
+		}
+	}
+	return final
+}
+
+func calleeIdent(call *ast.CallExpr) *ast.Ident {
+	switch f := ast.Unparen(call.Fun).(type) {
+	case *ast.Ident:
+		return f
+	case *ast.SelectorExpr:
+		return f.Sel
+	}
+	return nil
 }
 
 // identConst: e is ast.NewIdent("lit") or &ast.Ident{Name: "lit"} (directly or through a local variable that is
